@@ -103,6 +103,21 @@ pub fn build_world(seed: u64) -> World {
     let mut bad = m0.clone();
     bad.pi[0] += F::ONE;
     members.insert("badpi".into(), bad);
+    // a colluding pair: the same valid proof with its final opening witness pi replaced by pi + D and by pi - D.
+    // Each is invalid alone; their errors are opposite, so they cancel in any combination that weighs them equally.
+    {
+        use group::{Curve, GroupEncoding};
+        let mut repr = <midnight_curves::G1Affine as GroupEncoding>::Repr::default();
+        repr.as_mut().copy_from_slice(&m0.proof[n - 48..]);
+        let pi: Option<midnight_curves::G1Affine> = midnight_curves::G1Affine::from_bytes(&repr).into();
+        let pi = midnight_curves::G1Projective::from(pi.expect("the last element of a proof is a G1 point"));
+        let d = <midnight_curves::G1Projective as group::Group>::generator();
+        for (name, q) in [("pairA", pi + d), ("pairB", pi - d)] {
+            let mut bad = m0.clone();
+            bad.proof[n - 48..].copy_from_slice(q.to_affine().to_bytes().as_ref());
+            members.insert(name.into(), bad);
+        }
+    }
     let mut bad = m0.clone();
     bad.vk = vk_s.clone();
     bad.vk_name = "vk_sq".into();
